@@ -197,7 +197,7 @@ pub fn shape_types(max_n: usize, set: bool) -> Vec<(String, Ty)> {
 /// C03 shapes whose components are of REFERENCED types: a plain SEQUENCE (no OPTIONAL, no marker: its reader and
 /// writer need no presence bits of their own) and a named INTEGER, each mandatory or OPTIONAL, every marker position.
 pub fn shape_ref_types(max_n: usize, set: bool) -> Vec<(String, Ty)> {
-    let types = [Ty::r("Tplain"), Ty::r("Tsmall"), Ty::r("Tplain"), Ty::r("Tsmall")];
+    let types = [Ty::r("Tplain"), Ty::r("Tsmall"), Ty::r("Tchoice"), Ty::r("Tsmall")];
     let mut out = vec![];
     for n in 1..=max_n {
         for code in 0..2usize.pow(n as u32) {
@@ -216,10 +216,30 @@ pub fn shape_ref_types(max_n: usize, set: bool) -> Vec<(String, Ty)> {
     out
 }
 
+/// the 64 / 65 boundary: the presence flags of the root (a run of more than 64 bits) and the COUNT of extension
+/// additions, whose "normally small length" changes its form at 64 (X.691 11.9.3.4, 19.8)
+pub fn wide_types() -> Vec<(String, Ty)> {
+    let mut out = vec![];
+    for n in [64usize, 65, 70] {
+        out.push((format!("Twideo{n}"), Ty::seq((0..n).map(|i| Comp::new(&format!("f{i}"), Ty::int_r(0, 7)).opt()).collect())));
+        let mut comps = vec![Comp::new("r", Ty::int_r(0, 7))];
+        comps.extend((0..n).map(|i| Comp::new(&format!("x{i}"), Ty::int_r(0, 7))));
+        out.push((format!("Twidex{n}"), Ty::Seq { set: false, comps, ext_after: Some(1) }));
+    }
+    out
+}
+
 fn shape_modules(out: &mut Vec<ZooModule>) {
+    {
+        let mut m = Module::new("Zwide");
+        for (n, t) in wide_types() {
+            m = m.def(&n, t);
+        }
+        out.push(ZooModule { id: "wide".into(), group: "shape", quick: true, module: m });
+    }
     for (types, prefix, quick) in [(shape_ref_types(3, false), "shrq", true), (shape_ref_types(2, true), "shqq", true), (shape_ref_types(4, false).into_iter().filter(|(_, t)| matches!(t, Ty::Seq { comps, .. } if comps.len() == 4)).collect(), "shr4t", false)] {
         for (ci, ch) in types.chunks(120).enumerate() {
-            let mut m = Module::new(&format!("Z{prefix}{ci}")).def("Tplain", Ty::seq(vec![Comp::new("p", Ty::int_r(0, 7)), Comp::new("q", Ty::Bool)])).def("Tsmall", Ty::int_r(0, 255));
+            let mut m = Module::new(&format!("Z{prefix}{ci}")).def("Tplain", Ty::seq(vec![Comp::new("p", Ty::int_r(0, 7)), Comp::new("q", Ty::Bool)])).def("Tsmall", Ty::int_r(0, 255)).def("Tchoice", Ty::choice(vec![Alt::new("i", Ty::int_r(0, 7)), Alt::new("b", Ty::Bool)]));
             for (n, t) in ch {
                 m = m.def(n, t.clone());
             }
